@@ -223,6 +223,45 @@ fn zstiter<N: ArrayLength>() {
     ev!("\"ev\":\"zstiter\",\"n_hi\":{},\"n_lo\":{},\"steps\":[{}],\"count\":{},\"last_some\":{}", (n as u64) >> 32, (n as u64) & 0xffff_ffff, steps.join(","), count, last_some);
 }
 
+/// the length-changing operations on arrays of zero-sized elements longer than 32 bits / isize::MAX (C09): all of them are
+/// O(1) there; result lengths are recorded relative to N (wrapping, -1000000 when not small), small results absolutely
+macro_rules! zstseq_impl {
+    ($name:ident, $N:ty) => {
+        fn $name() {
+            use generic_array::sequence::{Concat, Lengthen, Remove, Shorten, Split};
+            use generic_array::typenum::{U3, U5};
+            type N = $N;
+            let n = <N as generic_array::typenum::Unsigned>::USIZE;
+            let mk = || -> GenericArray<(), N> { unsafe { GenericArray::assume_init(GenericArray::<(), N>::uninit()) } };
+            let rel = |x: usize| -> i64 { let d = x.wrapping_sub(n) as i64; if d > 1_000_000 || d < -1_000_000 { -1_000_000 } else { d } };
+            let mut ops: Vec<String> = Vec::new();
+            let mut op = |name: &str, outs: Vec<i64>, small: Vec<usize>, panicked: bool| {
+                ops.push(format!("{{\"op\":\"{}\",\"outs\":{:?},\"small\":{:?},\"panicked\":{}}}", name, outs, small, panicked));
+            };
+            op("append", vec![rel(mk().append(()).len())], vec![], false);
+            op("prepend", vec![rel(mk().prepend(()).len())], vec![], false);
+            op("pop_back", vec![rel(mk().pop_back().0.len())], vec![], false);
+            op("pop_front", vec![rel(mk().pop_front().1.len())], vec![], false);
+            { let (a, b) = Split::<(), U5>::split(mk()); op("split5", vec![rel(b.len())], vec![a.len()], false); }
+            { let a = mk(); let (x, y) = Split::<(), U5>::split(&a); op("split5_ref", vec![rel(y.len())], vec![x.len()], false); }
+            { let r = Concat::concat(mk(), GenericArray::<(), U3>::default()); op("concat3", vec![rel(r.len())], vec![], false); }
+            { let r = Concat::concat(GenericArray::<(), U3>::default(), mk()); op("concat3_front", vec![rel(r.len())], vec![], false); }
+            op("remove7", vec![rel(mk().remove(7).1.len())], vec![], false);
+            op("remove_last", vec![rel(mk().remove(n - 1).1.len())], vec![], false);
+            op("swap_remove7", vec![rel(mk().swap_remove(7).1.len())], vec![], false);
+            op("swap_remove_last", vec![rel(mk().swap_remove(n - 1).1.len())], vec![], false);
+            let p = std::panic::catch_unwind(|| { let a: GenericArray<(), N> = unsafe { GenericArray::assume_init(GenericArray::<(), N>::uninit()) }; a.remove(<N as generic_array::typenum::Unsigned>::USIZE).1.len() }).is_err();
+            op("remove_at_n", vec![], vec![], p);
+            let p = std::panic::catch_unwind(|| { let a: GenericArray<(), N> = unsafe { GenericArray::assume_init(GenericArray::<(), N>::uninit()) }; a.swap_remove(<N as generic_array::typenum::Unsigned>::USIZE).1.len() }).is_err();
+            op("swap_remove_at_n", vec![], vec![], p);
+            ev!("\"ev\":\"zstseq\",\"n_hi\":{},\"n_lo\":{},\"ops\":[{}]", (n as u64) >> 32, (n as u64) & 0xffff_ffff, ops.join(","));
+        }
+    };
+}
+zstseq_impl!(zstseq_2_32, generic_array::typenum::U4294967296);
+zstseq_impl!(zstseq_2_32_5, generic_array::typenum::Sum<generic_array::typenum::U4294967296, generic_array::typenum::U5>);
+zstseq_impl!(zstseq_2_63, generic_array::typenum::U9223372036854775808);
+
 pub fn run_case(scn: &J) {
     // with d.rec the allocator calls of the construction are part of the trace (layouts of multi-MiB blocks)
     let rec = scn["d"]["rec"].as_bool().unwrap_or(false);
@@ -234,7 +273,7 @@ pub fn run_case(scn: &J) {
     let op = scn["d"]["op"].as_str().unwrap().to_string();
     let shape = scn["d"]["shape"].as_str().unwrap().to_string();
     let arg = scn["d"]["arg"].as_u64().unwrap_or(0) as usize;
-    if op == "bigseq" || op == "bigserde" || op == "zsthuge" || op == "zstviews" || op == "zstiter" {
+    if op == "bigseq" || op == "bigserde" || op == "zsthuge" || op == "zstviews" || op == "zstiter" || op == "zstseq" {
         use generic_array::typenum::{Sum, U1, U2, U2048, U3, U4096, U5, U7, U8192, U4294967296, U4611686018427387904, U9223372036854775807, U9223372036854775808};
         let sub = scn["d"]["sub"].as_str().unwrap_or("").to_string();
         let h = std::thread::Builder::new()
@@ -249,6 +288,9 @@ pub fn run_case(scn: &J) {
                 ("zsthuge", "2") => zsthuge::<U2>(&sub),
                 ("zsthuge", "3") => zsthuge::<U3>(&sub),
                 ("zsthuge", "7") => zsthuge::<U7>(&sub),
+                ("zstseq", "2^32") => zstseq_2_32(),
+                ("zstseq", "2^32+5") => zstseq_2_32_5(),
+                ("zstseq", "2^63") => zstseq_2_63(),
                 ("zstiter", "2^32") => zstiter::<U4294967296>(),
                 ("zstiter", "2^32+5") => zstiter::<Sum<U4294967296, U5>>(),
                 ("zstiter", "2^63") => zstiter::<U9223372036854775808>(),
